@@ -46,9 +46,12 @@ MUTS = [
  ("C11","M9-aux-transition-restarts-main-timer","ioflo/base/framing.py",
   "        for aux in self.auxes:\n            aux.segue()\n",
   "        for aux in self.auxes:\n            if aux.segue():\n                self.framer.restartTimer()\n"),
- ("C20","M8-entry-need-check-arms","ioflo/base/needing.py",
-  "            result = ((mark.stamp is None) or\n                      (share.stamp > mark.stamp) or\n                      (share.stamp == mark.stamp and mark.used != mark.stamp))\n",
-  "            result = ((mark.stamp is None) or\n                      (share.stamp > mark.stamp) or\n                      (share.stamp == mark.stamp and mark.used != mark.stamp))\n            if self._act.context == ActionContextNames[BENTER] and not result:\n                mark.stamp = self.store.stamp\n"),
+ ("C20","M8-entry-need-tract-runs-on-entry","ioflo/base/acting.py",
+  "        for act in self._tracts:  # transit sub-context of segue precur\n            act()\n\n        framer.exit(exits)",
+  "        for act in self._tracts:  # transit sub-context of segue precur\n            act()\n        for fr in enters:\n            for be in fr.beacts:\n                for tr in getattr(be.actor, '_tracts', []):\n                    tr()\n\n        framer.exit(exits)"),
+ ("C20","M9-entry-marker-needs-not-checked","ioflo/base/framing.py",
+  "        for need in self.beacts:  #could use generator expression and all()\n",
+  "        for need in [b for b in self.beacts if type(b.actor).__name__ not in ('NeedUpdate', 'NeedChange')]:  #could use generator expression and all()\n"),
  ("C13","M1-me-uses-main-framer","ioflo/base/acting.py",
   "                    if parts[1] == 'me': # current framer\n                        parts[1] = self.frame.framer.name",
   "                    if parts[1] == 'me': # current framer\n                        parts[1] = (self.frame.framer.main.framer.name if self.frame.framer.main else self.frame.framer.name)"),
